@@ -23,6 +23,9 @@ def stale_spec(rng, vapp_models):
         if vapp_models and rng.random() < 0.5:
             fields.append({'name': 'ref', 'type': 'ForeignKey', 'attrs': {'null': True},
                            'related': 'vapp.%s' % rng.choice(vapp_models)})
+        if rng.random() < 0.4:
+            # a model that refers to itself (a tree, a thread of replies)
+            fields.append({'name': 'parent', 'type': 'ForeignKey', 'attrs': {'null': True}, 'related': 'yapp.%s' % n})
         if i > 0 and rng.random() < 0.7:
             fields.append({'name': 'pals', 'type': 'ManyToManyField', 'attrs': {}, 'related': 'yapp.%s' % names[0]})
         if vapp_models and rng.random() < 0.6:
